@@ -120,9 +120,11 @@ func (k Keeper) IterateConsensusStates(
 	for ; iterator.Valid(); iterator.Next() {
 		key := iterator.Key()
 
-		keySplit := strings.Split(string(key), "/")
-		// consensus key is in the format "clients/<chainName>/consensusStates/<height>"
-		if len(keySplit) != 4 || keySplit[2] != string(host.KeyConsensusStatePrefix) {
+		// consensus key is in the format "clients/<chainName>/consensusStates/<height>".
+		// <height> is binary (2 x 8 bytes big endian) and may itself contain '/': split
+		// off the three textual segments only and select the key by the height's length.
+		keySplit := strings.SplitN(string(key), "/", 4)
+		if len(keySplit) != 4 || keySplit[2] != string(host.KeyConsensusStatePrefix) || len(keySplit[3]) != 16 {
 			continue
 		}
 		chainName := keySplit[1]
